@@ -1154,3 +1154,170 @@ def make(concepts, case):
                   for j, c in enumerate(r)) for i, r in enumerate(case['table'])]
     ctx = concepts.Context(case['objects'], case['properties'], rows)
     return ctx, Oracle(case['objects'], case['properties'], case['table'])
+
+
+# -- C12: text formats (concrete battery: replays, witnesses and the observation phase of the per-table units) ------
+
+_LB = None
+
+
+def _label_ok(label, fmt):
+    global _LB
+    if _LB is None:
+        _LB = {chr(c) for c in range(0x110000) if len(('a' + chr(c) + 'b').splitlines()) == 2}
+    if not label:
+        return False
+    if fmt in ('csv', 'csv-int', 'python-literal', 'fimi'):
+        return True
+    if label != label.strip() or any(ch in _LB for ch in label):
+        return False
+    if fmt in ('table', 'wiki') and any(ch in '|#' for ch in label):
+        return False
+    if fmt == 'wiki' and '!' in label:
+        return False
+    return True
+
+
+def _triple(c):
+    return (list(c.objects), list(c.properties), [tuple(bool(x) for x in r) for r in c.bools])
+
+
+def b12(concepts, case, symbolic_io=False):
+    import csv
+    import io
+    import os
+    import shutil
+    import tempfile
+    from . import fmtspec
+    fails = []
+    objs, props = list(case['objects']), list(case['properties'])
+    table = [tuple(bool(c) for c in r) for r in case['table']]
+    want = (objs, props, table)
+    ctx = concepts.Context(objs, props, table)
+    which = case.get('format', 'all')
+    fmts = ['table', 'cxt', 'wiki', 'csv', 'csv-int', 'python-literal', 'fimi'] if which == 'all' else [which]
+    fmts = [f for f in fmts if all(_label_ok(l, f) for l in objs + props)]
+    indent = case.get('indent', 0)
+    tmp = tempfile.mkdtemp(prefix='c12-')
+
+    def cmp(got, what):
+        if got != want:
+            fails.append(f'{what}: got {got!r}, expected {want!r}')
+
+    def guard(what, fn):
+        try:
+            return fn()
+        except fmtspec.LayoutError as e:
+            fails.append(f'{what}: the emitted text does not follow the layout of the format: {e}')
+        except (ValueError, KeyError, IndexError, TypeError, AttributeError, StopIteration) as e:
+            fails.append(f'{what}: {type(e).__name__}: {e}')
+        return None
+    try:
+        for f in fmts:
+            name = {'csv-int': 'csv', 'wiki': 'wiki-table'}.get(f, f)
+            dkw = {'indent': indent} if f == 'table' else {'bools_as_int': True} if f == 'csv-int' else {}
+            text = guard(f'{f} tostring', lambda: ctx.tostring(frmat=name, **dkw))
+            if text is None:
+                continue
+            # independent reader
+            if f == 'table':
+                got = guard(f'{f} reader', lambda: fmtspec.read_table(text))
+            elif f == 'cxt':
+                got = guard(f'{f} reader', lambda: fmtspec.read_cxt(text))
+            elif f == 'wiki':
+                got = guard(f'{f} reader', lambda: fmtspec.read_wiki(text))
+            elif f in ('csv', 'csv-int'):
+                def rd():
+                    rows = list(csv.reader(io.StringIO(text, newline='')))
+                    sym = {'X': True, '': False} if f == 'csv' else {'1': True, '0': False}
+                    return (rows[0][1:], [r[0] for r in rows[1:]], [tuple(sym[x] for x in r[1:]) for r in rows[1:]])
+                got = guard(f'{f} reader', rd)
+                if got is not None:
+                    got = (got[1], got[0], got[2])
+            elif f == 'fimi':
+                got = guard(f'{f} reader', lambda: fmtspec.read_fimi(text))
+                if got is not None and got != [[j for j, c in enumerate(r) if c] for r in table]:
+                    fails.append(f'fimi rows {got!r} do not list exactly the true cells of {table!r}')
+                got = None
+            else:
+                got = None
+            if got is not None:
+                got = (list(got[0]), list(got[1]), [tuple(r) for r in got[2]])
+                cmp(got, f'{f}: a reader written from the format description, on the emitted text {text!r}')
+            if f in ('wiki', 'fimi'):
+                continue
+            # string round trip through the public API (and through the format class)
+            lkws = [{}] + ([{'bools_as_int': f == 'csv-int'}] if f.startswith('csv') else [])
+            for lkw in lkws:
+                c2 = guard(f'{f} fromstring', lambda: concepts.Context.fromstring(text, frmat=name, **lkw))
+                if c2 is not None:
+                    cmp(_triple(c2), f'{f}: fromstring(tostring(x)) {lkw}')
+            if f == 'table':
+                c2 = guard('make_context', lambda: concepts.make_context(text))
+                if c2 is not None:
+                    cmp(_triple(c2), 'make_context(tostring(x))')
+            # independent writers
+            variants = []
+            if f == 'table':
+                variants = [(s, fmtspec.write_table(objs, props, table, s)) for s in ('aligned', 'tight', 'airy')]
+            elif f == 'cxt':
+                variants = [('final newline', fmtspec.write_cxt(objs, props, table, True)),
+                            ('no final newline', fmtspec.write_cxt(objs, props, table, False))]
+            elif f.startswith('csv'):
+                sym = {True: 'X', False: ''} if f == 'csv' else {True: '1', False: '0'}
+                for qname, q in (('minimal quoting', csv.QUOTE_MINIMAL), ('all quoted', csv.QUOTE_ALL)):
+                    buf = io.StringIO(newline='')
+                    w = csv.writer(buf, quoting=q)
+                    w.writerow([''] + props)
+                    w.writerows([[o] + [sym[c] for c in r] for o, r in zip(objs, table)])
+                    variants.append((qname, buf.getvalue()))
+            for vname, t2 in variants:
+                c2 = guard(f'{f} independent writer ({vname})', lambda: concepts.Context.fromstring(t2, frmat=name))
+                if c2 is not None:
+                    cmp(_triple(c2), f'{f}: text of an independent writer ({vname}) {t2!r}')
+            # files, encodings, suffix inference
+            suffix = {'table': '.txt', 'cxt': '.cxt', 'csv': '.csv', 'csv-int': '.csv', 'python-literal': '.py'}[f]
+            for enc in ('utf-8', 'utf-16', 'latin-1'):
+                try:
+                    ''.join(objs + props).encode(enc)
+                except UnicodeEncodeError:
+                    continue
+                for sfx in (suffix, suffix.upper()):
+                    path = os.path.join(tmp, f'c{len(os.listdir(tmp))}{sfx}')
+                    if guard(f'{f} tofile {enc}', lambda: (ctx.tofile(path, frmat=name, encoding=enc, **dkw), 1)[1]) is None:
+                        continue
+                    c2 = guard(f'{f} fromfile {enc}', lambda: concepts.Context.fromfile(path, frmat=name, encoding=enc))
+                    if c2 is not None:
+                        cmp(_triple(c2), f'{f}: fromfile(tofile(x)) encoding {enc}')
+                    c3 = guard(f'{f} load {sfx} {enc}', lambda: concepts.load(path, encoding=enc))
+                    if c3 is not None:
+                        cmp(_triple(c3), f'{f}: load() with suffix {sfx!r} encoding {enc}')
+                    if f == 'cxt':
+                        c4 = guard('load_cxt', lambda: concepts.load_cxt(path, encoding=enc))
+                        if c4 is not None:
+                            cmp(_triple(c4), f'load_cxt encoding {enc}')
+                    if f.startswith('csv'):
+                        c4 = guard('load_csv', lambda: concepts.load_csv(path, encoding=enc))
+                        if c4 is not None:
+                            cmp(_triple(c4), f'load_csv encoding {enc}')
+                    if f == 'table' and enc == 'utf-8':
+                        d = guard('Definition.fromfile', lambda: concepts.Definition.fromfile(path, frmat='table', encoding=enc))
+                        if d is not None:
+                            cmp((list(d.objects), list(d.properties), [tuple(r) for r in d.bools]), 'Definition.fromfile(tofile(x))')
+        # concept .dat files list exactly the members of each concept
+        if which == 'all' and len(objs) * len(props) <= 9:
+            from concepts import algorithms
+            for extents in (False, True):
+                path = os.path.join(tmp, f'concepts{int(extents)}.dat')
+                cl = algorithms.get_concepts(ctx)
+                cl.tofile(path, extents=extents)
+                got = [tuple(r) for r in concepts.formats.read_concepts_dat(path)]
+                exp = [tuple((c.extent if extents else c.intent).iter_set()) for c in cl]
+                with open(path, encoding='ascii') as fh:
+                    lines = fh.read().split('\n')
+                raw = [tuple(int(t) for t in l.split(' ') if t) for l in lines[:-1]]
+                if got != exp or raw != exp:
+                    fails.append(f'concept .dat file (extents={extents}): read {got!r} / raw {raw!r}, expected {exp!r}')
+    finally:
+        shutil.rmtree(tmp, ignore_errors=True)
+    return fails
